@@ -151,7 +151,9 @@ func (r *NetconfResponse) Record(b []byte) {
 func (r *NetconfResponse) record1dot0() {
 	b := r.RawResult
 
-	b = bytes.TrimPrefix(b, []byte(xmlHeader))
+	// trim space before trimming the declaration too: the newline that follows the previous
+	// message's delimiter can be the first byte of this one
+	b = bytes.TrimPrefix(bytes.TrimSpace(b), []byte(xmlHeader))
 	// trim space before trimming suffix because we usually have a trailing newline!
 	b = bytes.TrimSuffix(bytes.TrimSpace(b), []byte(v1Dot0Delim))
 
